@@ -130,9 +130,17 @@ pub fn eval_meta(c: &MetaCase) -> Outcome {
     let ro = run_history(&lo.cfg, &lo.ops);
     if let Some(p) = rw.panic.as_ref().or(ro.panic.as_ref()) {
         o.aborted_by_panic = Some(p.clone());
+        if rw.panic.is_some() && ro.panic.is_none() && ro.finished_at.is_some() {
+            // a panic as such is C12's finding; that the very same history is muxed fine WITHOUT the metadata makes it an
+            // isolation failure as well: the metadata decided whether a file is produced at all
+            o.fail("isolation", "isolation.panic_only_with_metadata", format!("the history is muxed without metadata, but panics with title {:?} / creation time {:?} / language {:?}: {}", c.title, c.ctime, c.lang, p));
+        }
         return o;
     }
     if rw.finished_at.is_none() || ro.finished_at.is_none() {
+        if rw.finished_at.is_some() != ro.finished_at.is_some() && rw.results.iter().map(|r| r.is_ok()).ne(ro.results.iter().map(|r| r.is_ok())) {
+            o.fail("isolation", "isolation.decisions", "accept / reject decisions differ between the runs with and without metadata");
+        }
         o.class("finish_not_ok");
         return o;
     }
@@ -249,7 +257,7 @@ pub fn eval_meta(c: &MetaCase) -> Outcome {
     o
 }
 
-fn meta_strategy(t: Tier) -> BoxedStrategy<MetaCase> {
+pub fn meta_strategy(t: Tier) -> BoxedStrategy<MetaCase> {
     let (mv, ma) = if t == Tier::Quick { (6, 6) } else { (20, 20) };
     (
         valid_case_strategy(mv, ma),
